@@ -75,7 +75,7 @@ class StateMachine(metaclass=StateMachineMetaclass):
         allow_event_without_transition: bool = False,
         listeners: "List[object] | None" = None,
     ):
-        self.model = model if model else Model()
+        self.model = model if model is not None else Model()
         self.state_field = state_field
         self.start_value = start_value
         self.allow_event_without_transition = allow_event_without_transition
@@ -149,7 +149,9 @@ class StateMachine(metaclass=StateMachineMetaclass):
         self._engine = self._get_engine(rtc)
 
     def _get_initial_state(self):
-        initial_state_value = self.start_value if self.start_value else self.initial_state.value
+        initial_state_value = (
+            self.start_value if self.start_value is not None else self.initial_state.value
+        )
         try:
             return self.states_map[initial_state_value]
         except KeyError as err:
